@@ -37,6 +37,10 @@ type Ctx struct {
 
 	nonTrivial bool
 	shape      string // program/schedule/fault shape hash input for distinctness
+
+	// Mute, when set, is asked before a violation is raised: true ends the run without a verdict (counted in a
+	// probe). For oracles that reach a question the property's statement leaves open in this very run.
+	Mute func(property, class string) bool
 }
 
 func NewCtx(sim, tier string, src *tape.Source, st *Stats) *Ctx {
@@ -111,6 +115,10 @@ func (c *Ctx) Fail(property, class, signature, f string, a ...interface{}) {
 		// the monitor's command borrows another check's workload (the record store) only as a source of values:
 		// that check's own oracles are not this command's business; the run ends here without a verdict
 		c.Probe("c06.borrowed-workload-ended-by-other-oracle:" + property + ":" + class)
+		panic(mutedPanic{})
+	}
+	if c.Mute != nil && c.Mute(property, class) {
+		c.Probe("muted:" + property + ":" + class)
 		panic(mutedPanic{})
 	}
 	panic(violationPanic{&Violation{Property: property, Class: class, Signature: signature, Detail: fmt.Sprintf(f, a...)}})
